@@ -48,6 +48,26 @@ def key_vs_bound(ev, nxt):
     return 0
 
 
+def _kind_of_path(p, kinds):
+    """The iterator kind a path of next() is specialised to - by a switch label or by a chain of comparisons of it_type with
+    the enumeration's constants; "default" when the path excludes every constant it tested; None when it_type is untested."""
+    byval = {"#%d" % v: k for k, v in kinds.items()}
+    tag = None
+    tested = False
+    for (a, b), v in p.cons.items():
+        if not re.search(r"(->|\.)it_type(@\d+)?$", a):
+            continue
+        if b == "switch":
+            return list(v)[0]
+        if b in byval:
+            tested = True
+            if v == frozenset((EQ,)):
+                tag = byval[b]
+    if tag is None and tested:
+        return "default"
+    return tag
+
+
 def run(ctx, res):
     prog, cg = ctx.prog, ctx.cg
     mres = prog.enums["mtbl_res"]
@@ -61,10 +81,7 @@ def run(ctx, res):
     ev = APE.run(prog, cg, nxt, bound=APE.BOUND)
     seen_kinds = set()
     for p in ev.paths:
-        tag = None
-        for (a, b), v in p.cons.items():
-            if b == "switch" and "it_type" in a:
-                tag = list(v)[0]
+        tag = _kind_of_path(p, kinds)
         if tag is None:
             continue
         if p.end == "noreturn":
@@ -138,65 +155,90 @@ def run(ctx, res):
               "no case for %s" % sorted(missing), nxt.loc(nxt.body))
 
     # ---- R2 constructors ---------------------------------------------------------------
+    # Decided at the entry points the reader installs in its source (slots of mtbl_source_init), on their paths with the
+    # unit's internal functions evaluated as part of them - wherever the common work lives (a shared initialiser, a wrapping
+    # helper, the entry point itself): the index iterator and then the block iterator are positioned at the lookup key, the
+    # bound and the kind are stored, the iterator gets the reader's three callbacks and starts valid and first; NULL is
+    # returned only when no block could be loaded.
     res.floor("C02.R2", 8)
-    table = {"reader_get": ((1, 2), (1, 2), "READER_ITER_TYPE_GET"),
-             "reader_get_prefix": ((1, 2), (1, 2), "READER_ITER_TYPE_GET_PREFIX"),
-             "reader_get_range": ((1, 2), (3, 4), "READER_ITER_TYPE_GET_RANGE")}
-    for fn, (seekp, boundp, kind) in table.items():
-        f = prog.need(fn, U)
+    slots = {}
+    for i, kind in ((0, "READER_ITER_TYPE_ITER"), (1, "READER_ITER_TYPE_GET"), (2, "READER_ITER_TYPE_GET_PREFIX"), (3, "READER_ITER_TYPE_GET_RANGE")):
+        cands = [n_ for n_ in cg.param_funcs.get(("mtbl_source_init", i), ()) if prog.func(n_, U) is not None and prog.func(n_, U).file.endswith("reader.c")]
+        if len(cands) != 1:
+            raise BrokenAnalysis("reader source slot %d: expected one reader function, found %s" % (i, sorted(cands)))
+        slots[kind] = prog.func(cands[0], U)
+    cbs = cg.param_funcs
+    for kind, f in slots.items():
         res.saw(f)
-        ini = f.calls("reader_iter_init")
-        ok1 = len(ini) == 1 and [arg_role(f, a) for a in call_args(ini[0])[1:]] == [("param", seekp[0]), ("param", seekp[1])]
-        res.check(ok1, "C02.R2", site(f, "seek-key"), "positions at parameters %s" % (seekp,),
-                  "%s positions at %s" % (fn, [canon(a) for a in call_args(ini[0])[1:]] if ini else None), f.loc(f.body))
-        app = [c for c in f.calls("ubuf_append") if canon(call_args(c)[0]).endswith("->k")]
-        ok2 = len(app) == 1 and [arg_role(f, a) for a in call_args(app[0])[1:]] == [("param", boundp[0]), ("param", boundp[1])]
-        res.check(ok2, "C02.R2", site(f, "bound"), "bound := parameters %s" % (boundp,),
-                  "%s stores %s as its bound" % (fn, [canon(a) for a in call_args(app[0])[1:]] if app else None), f.loc(f.body))
-        st = [n for n, lhs in field_stores(f, "reader_iter", "it_type")]
-        ok3 = len(st) == 1 and strip(st[0]["kids"][1]).get("name") == kind
-        res.check(ok3, "C02.R2", site(f, "kind"), "kind := %s" % kind, "%s sets kind %s" % (fn, canon(st[0]["kids"][1]) if st else None), f.loc(f.body))
-        kb = [c for c in f.calls("ubuf_init") if True]
-        # the same callbacks for every kind
-        mi = f.calls("mtbl_iter_init")
-        ok4 = len(mi) == 1 and [canon(a) for a in call_args(mi[0])[:3]] == ["reader_iter_seek", "reader_iter_next", "reader_iter_free"]
-        res.check(ok4, "C02.R2", site(f, "callbacks"), "iterator uses reader_iter_seek/next/free", "callbacks are %s" % ([canon(a) for a in call_args(mi[0])[:3]] if mi else None))
-    for cn in ("reader_iter", "reader_iter_init"):
-        cf = prog.need(cn, U)
-        evc = APE.run(prog, cg, cf, bound=APE.BOUND)
+        pn = [q["name"] for q in f.params]
+        if kind == "READER_ITER_TYPE_ITER":
+            seekp, boundp = None, None
+        elif kind == "READER_ITER_TYPE_GET_RANGE":
+            seekp, boundp = (pn[1], pn[2]), (pn[3], pn[4])
+        else:
+            seekp, boundp = (pn[1], pn[2]), (pn[1], pn[2])
+        evc = APE.run(prog, cg, f, bound=APE.BOUND, inline=("*static",))
+        nok = 0
         for p in evc.paths:
-            if p.end == "exit" and p.ret() == ("c", 0):
-                # giving up is only right when the index named no block at all
-                blk = []
-                for e_ in p.events:
-                    if e_.kind == "store" and re.sub(r"@\d+", "", e_.a) == "it->b":
-                        c_ = p.cons.get((APE.vstr(e_.b), "#0"))
-                        if c_ is not None:
-                            blk.append(c_)
-                res.check(bool(blk) and blk[-1] == frozenset((EQ,)), "C02.R2", site(cf, "null-only-without-block"),
-                          "the constructor returns NULL only when no block could be loaded",
-                          "%s returns NULL although a block was loaded: a range/prefix lookup starting just behind a block's last key must continue in the next block"
-                          % cn, cf.loc(cf.body), p.describe(cf))
-                continue
             if p.end != "exit":
                 continue
-            st = {re.sub(r"@\d+", "", e.a).split("->")[-1]: e.b for e in p.events if e.kind == "store" and "->" in e.a}
-            res.check(st.get("valid") == ("c", 1) and st.get("first") == ("c", 1), "C02.R2", site(cf, "starts-valid-and-first"),
+            stores = [e for e in p.events if e.kind == "store"]
+            calls = [e for e in p.events if e.kind == "call"]
+
+            def holder(v):
+                """Field (of the iterator under construction) a value was read from or stored into on this path."""
+                t = strip_tags(APE.vstr(v))
+                m_ = re.search(r"->(\w+)$", t)
+                if m_:
+                    return m_.group(1)
+                for e_ in stores:
+                    if e_.b == v and "->" in e_.a:
+                        return re.sub(r"@\d+", "", e_.a).rsplit("->", 1)[-1]
+                return None
+            if p.ret() == ("c", 0):
+                blk = []
+                for e_ in stores:
+                    if re.sub(r"@\d+", "", e_.a).endswith("->b"):
+                        c_ = p.cons.get((APE.vstr(e_.b), "#0"))
+                        if e_.b[0] == "c":
+                            c_ = frozenset((EQ,)) if e_.b[1] == 0 else frozenset((GT,))
+                        if c_ is not None:
+                            blk.append(c_)
+                res.check(bool(blk) and blk[-1] == frozenset((EQ,)), "C02.R2", site(f, "null-only-without-block"),
+                          "the constructor returns NULL only when no block could be loaded",
+                          "%s returns NULL although a block was loaded: a range/prefix lookup starting just behind a block's last key must continue in the next block"
+                          % f.name, f.loc(f.body), p.describe(f))
+                continue
+            nok += 1
+            last = {}
+            for e_ in stores:
+                if "->" in e_.a:
+                    last[re.sub(r"@\d+", "", e_.a).rsplit("->", 1)[-1]] = e_.b
+            res.check(last.get("valid") == ("c", 1) and last.get("first") == ("c", 1), "C02.R2", site(f, "starts-valid-and-first"),
                       "a new iterator starts with first = true and valid = true (next itself walks on when the seek ran off its block)",
                       "a new iterator starts with valid := %s, first := %s: a lookup that lands just behind a block's last key ends at once instead of continuing "
-                      "in the next block" % (APE.vstr(st["valid"]) if "valid" in st else None, APE.vstr(st["first"]) if "first" in st else None),
-                      cf.loc(cf.body), p.describe(cf))
-    rii = prog.need("reader_iter_init", U)
-    res.saw(rii)
-    evp = APE.run(prog, cg, rii, bound=APE.BOUND)
-    for p in evp.paths:
-        if p.end != "exit" or p.ret() == ("c", 0):
-            continue
-        sk = [e for e in p.calls("block_iter_seek")]
-        roles = [(canon(call_args(e.node)[0]).split("->")[-1], [arg_role(rii, a) for a in call_args(e.node)[1:]]) for e in sk]
-        want = [("index_iter", [("param", 1), ("param", 2)]), ("bi", [("param", 1), ("param", 2)])]
-        res.check(roles == want, "C02.R2", site(rii, "index-seek-then-block-seek"),
-                  "index seek then in-block seek, both with the lookup key", "reader_iter_init seeks %s" % roles, rii.loc(rii.body), p.describe(rii))
+                      "in the next block" % (APE.vstr(last["valid"]) if "valid" in last else None, APE.vstr(last["first"]) if "first" in last else None),
+                      f.loc(f.body), p.describe(f))
+            mi = [e for e in calls if e.a == "mtbl_iter_init"]
+            cbv = [strip_tags(APE.vstr(x)).lstrip("&") for x in mi[0].b[:3]] if len(mi) == 1 else None
+            res.check(cbv == ["reader_iter_seek", "reader_iter_next", "reader_iter_free"] and p.ret() == mi[0].c, "C02.R2", site(f, "callbacks"),
+                      "the iterator returned uses reader_iter_seek/next/free", "callbacks are %s" % cbv, f.loc(f.body), p.describe(f))
+            kv = last.get("it_type")
+            res.check(kv == ("c", kinds[kind]) or (kv is None and kinds[kind] == 0 and any(e.a in ("my_calloc", "calloc") for e in calls)),
+                      "C02.R2", site(f, "kind"), "kind := %s" % kind,
+                      "%s sets kind %s" % (f.name, APE.vstr(kv) if kv else None), f.loc(f.body), p.describe(f))
+            if seekp is None:
+                continue
+            sk = [(holder(e.b[0]), tuple(e.b[1:3])) for e in calls if e.a == "block_iter_seek" and len(e.b) >= 3]
+            want = [("index_iter", (("s", seekp[0]), ("s", seekp[1]))), ("bi", (("s", seekp[0]), ("s", seekp[1])))]
+            res.check(sk == want, "C02.R2", site(f, "seek-key"), "index seek then in-block seek, both at parameters %s" % (seekp,),
+                      "%s positions at %s" % (f.name, [(h, [APE.vstr(x) for x in a_]) for h, a_ in sk]), f.loc(f.body), p.describe(f))
+            app = [e for e in calls if e.a == "ubuf_append" and len(e.b) == 3 and holder(e.b[0]) == "k"]
+            ok2 = len(app) == 1 and tuple(app[0].b[1:3]) == (("s", boundp[0]), ("s", boundp[1]))
+            res.check(ok2, "C02.R2", site(f, "bound"), "bound := parameters %s" % (boundp,),
+                      "%s stores %s as its bound" % (f.name, [APE.vstr(x) for x in app[0].b[1:3]] if app else None), f.loc(f.body), p.describe(f))
+        if nok == 0:
+            res.bad("C02.R2", site(f, "constructs"), "%s has no path that returns an iterator" % f.name, f.loc(f.body))
 
     # ---- R3 bytes_compare ----------------------------------------------------------------
     res.floor("C02.R3", 5)
@@ -291,11 +333,13 @@ def run(ctx, res):
         names = [e.a for e in evs]
         sep = [i for i, n in enumerate(names) if n == "bytes_shortest_separator"]
         fl = [i for i, n in enumerate(names) if n == "_mtbl_writer_flush"]
-        rs = [i for i, e in enumerate(evs) if e.a in ("ubuf_reset", "ubuf_clip") and canon(call_args(e.node)[0]).endswith("->last_key")]
+        # operands by value (the vector may be named through a local copy of the pointer)
+        is_lk = lambda v: strip_tags(APE.vstr(v)).endswith("->last_key")
+        rs = [i for i, e in enumerate(evs) if e.a in ("ubuf_reset", "ubuf_clip") and e.b and is_lk(e.b[0])]
         good = (len(sep) == len(fl)) and all(f_ == s_ + 1 for s_, f_ in zip(sep, fl)) and (not fl or (rs and fl[-1] < rs[0]))
         if sep:
-            a = call_args(evs[sep[0]].node)
-            good = good and canon(a[0]).endswith("->last_key") and arg_role(add, a[1]) == ("param", 1) and arg_role(add, a[2]) == ("param", 2)
+            a = evs[sep[0]].b
+            good = good and len(a) == 3 and is_lk(a[0]) and a[1] == ("s", add.params[1]["name"]) and a[2] == ("s", add.params[2]["name"])
         res.check(good, "C02.R5", site(add, "separator<->flush[%s]" % ("cut" if fl else "no-cut")),
                   "separator(last_key, key) computed iff a block is cut, immediately before the flush and before last_key is replaced",
                   "separator/flush coupling broken: calls %s" % [n for n in names if n in ("bytes_shortest_separator", "_mtbl_writer_flush", "ubuf_reset", "ubuf_append")],
